@@ -216,7 +216,8 @@ def ed25519(ctx, world, ev):
                 if o.value == zero or not isinstance(o.value, Obj):
                     continue
                 c = gm.unproj(o.state.heap[o.value.oid].get(cf))
-                ok = c is not None and c.f.startswith("fn:") and len(c.args) == 2 and c.args[0] == st.heap[e1.oid][cf] and c.args[1] == red
+                lc = gm.ladder_call(world, ev, c)
+                ok = lc is not None and lc["pt"] == st.heap[e1.oid][cf] and lc["n"] == red
                 ctx.ob("G3-modL", inst + " value", ok, "result = ladder(self, n mod L): depends only on n mod L" if ok else
                        "result is not ladder(self, n mod L): %s" % (show(c, maxdepth=3) if c is not None else None), _msite(recv.cls, "scalarmult"))
         if _has(recv, "negate"):
@@ -233,10 +234,11 @@ def ed25519(ctx, world, ev):
                     coords = o.state.heap[o.value.oid].get(cf)
                     c = gm.unproj(coords)
                     mine = st.heap[e1.oid][cf]
-                    if c is not None and c.f.startswith("fn:") and len(c.args) == 2 and c.args[0] == mine and isinstance(c.args[1], Const):
-                        k_ = c.args[1].v
+                    lc = gm.ladder_call(world, ev, c)
+                    if lc is not None and lc["pt"] == mine and isinstance(lc["n"], Const):
+                        k_ = lc["n"].v
                         ok = isinstance(k_, int) and (k_ + 1) % L == 0
-                        ctx.ob("G4", "negate(Elem)", ok, "negate multiplies by %s = -1 (mod L)" % show(c.args[1]) if ok else
+                        ctx.ob("G4", "negate(Elem)", ok, "negate multiplies by %s = -1 (mod L)" % show(lc["n"]) if ok else
                                "negate multiplies by the constant L%+d, i.e. by %d (mod L), not by -1: P.add(P.negate()) is not Zero"
                                % (k_ - L, k_ % L if k_ % L < L // 2 else k_ % L - L), _msite(recv.cls, "negate"))
                     elif isinstance(coords, TupleV) and len(coords.items) == 4:
@@ -281,9 +283,8 @@ def _has(obj, name):
 
 def ladders(ctx, world, ev, m, forms):
     n_l = 0
-    for name, f in sorted(m.env.items()):
-        if not isinstance(f, FuncV) or ev.policy.classify(f) != "recursive" or len(f.node.args.args) != 2:
-            continue
+    for (f, extra) in gm.ladder_instances(world, ev, m):
+        name = f.node.name
         n_l += 1
         site = (m.relpath, f.node.lineno, name)
         e2 = Ev(world)
@@ -291,7 +292,8 @@ def ladders(ctx, world, ev, m, forms):
         e2.unfold_once.add(f.qual)
         pt = TupleV([Sym(c, "int") for c in ("PX", "PY", "PZ", "PT")])
         n = Sym("n", "int")
-        outs = e2.run(f, [pt, n], [], world.static.fork())
+        outs = e2.run(f, [pt, n] + list(extra), [], world.static.fork())
+        label = f.qual + ("[%s]" % ", ".join(x.node.name for x in extra) if extra else "")
         rets = session.rets(outs)
         rec = None
 
@@ -331,11 +333,11 @@ def ladders(ctx, world, ev, m, forms):
             elif even and l == (2, 0):
                 step_even = True
             else:
-                ctx.ob("G6", f.qual + " step", False, "a path of the ladder body returns %s*f(P, n>>1) + %s*P under conditions %s"
+                ctx.ob("G6", label + " step", False, "a path of the ladder body returns %s*f(P, n>>1) + %s*P under conditions %s"
                        % (l[0] if l else "?", l[1] if l else "?", sorted(show(t, maxdepth=3) + "=" + str(p) for t, p in conds)), site)
-        rec_ok = rec is not None and rec.args == (pt, mk_app("RShift", (n, Const(1))))
+        rec_ok = rec is not None and rec.args == (pt, mk_app("RShift", (n, Const(1)))) + tuple(extra)
         ok = base_ok and step_odd and step_even and rec_ok
-        ctx.ob("G6", f.qual, ok,
+        ctx.ob("G6", label, ok,
                "induction step: f(P, n) = 2*f(P, n>>1) + (n&1)*P, f(P, 0) = identity => f(P, n) = n*P for n >= 0" if ok else
                "ladder does not satisfy the double-and-add induction step (base case ok: %s, odd step: %s, even step: %s, recursion on (P, n>>1): %s)"
                % (base_ok, step_odd, step_even, rec_ok), site)
